@@ -29,8 +29,25 @@ Qed.
 Lemma apply_MapLoad_vtl msg : is_vtl (apply_mapper MapLoad (RawDB msg)) = true.
 Proof. simpl. destruct (map_load_total msg) as [k [c ->]]. reflexivity. Qed.
 
-Lemma apply_MapQueryTotal_vtl msg : is_vtl (apply_mapper MapQueryTotal (RawDB msg)) = true.
-Proof. simpl. destruct (map_query msg); reflexivity. Qed.
+Lemma map_query_total msg : exists k c, map_query msg = Mapped k c.
+Proof.
+  unfold map_query.
+  assert (H : exists r, first_rule (lower msg) query_rules = Some r).
+  { unfold query_rules. simpl.
+    repeat match goal with |- context [if ?b then _ else _] => destruct b; [eexists; reflexivity|] end.
+    eexists; reflexivity. }
+  destruct H as [r ->]. eauto.
+Qed.
+
+Lemma apply_MapQuery_vtl msg : is_vtl (apply_mapper MapQuery (RawDB msg)) = true.
+Proof. simpl. destruct (map_query_total msg) as [k [c ->]]. reflexivity. Qed.
+
+(* every handler the current code has is total on DuckDB errors: in a handled stage ANY DuckDB message becomes a VTL error *)
+Lemma handled_stage_total s msg : stage_mapper_impl s <> NoMap -> is_vtl (apply_mapper (stage_mapper_impl s) (RawDB msg)) = true.
+Proof.
+  intros H. destruct s; cbn [stage_mapper_impl] in *; try (exfalso; apply H; reflexivity);
+    solve [apply apply_MapQuery_vtl | apply apply_MapLoad_vtl | apply apply_MapNormalize_vtl].
+Qed.
 
 Lemma apply_MapNormalize_vtl msg : is_vtl (apply_mapper MapNormalize (RawDB msg)) = true.
 Proof. reflexivity. Qed.
